@@ -76,6 +76,11 @@ impl Matcher {
             for &t in tokens {
                 let bt = inner.parser.consume_token(t)?;
                 ensure!(bt == 0, "unexpected backtracking");
+                // an end-of-sequence token ends the sequence right away,
+                // so that nothing after it in the same batch is accepted
+                if inner.parser.token_env.tok_trie().eos_tokens().contains(&t) {
+                    let _ = inner.parser.check_stop()?;
+                }
             }
             let _ = inner.parser.check_stop()?;
             Ok(())
